@@ -1910,7 +1910,12 @@ func (sc *serverConn) handleSettings(st *Settings) {
 // 6.5.3), which does not hold if the read loop acknowledges while DATA
 // metered against the old window is still being queued.
 func (sc *serverConn) ackSettings(st *Settings) {
-	sc.enc.SetMaxTableSize(st.HeaderTableSize())
+	// Only when the frame carries it: an absent parameter keeps the value the
+	// peer set before, and resetting the encoder to the default would have it
+	// use a table the peer has said it does not have.
+	if st.hasTableSize {
+		sc.enc.SetMaxTableSize(st.HeaderTableSize())
+	}
 
 	// The connection-level window is not affected by
 	// SETTINGS_INITIAL_WINDOW_SIZE (RFC 7540 6.9.2).
